@@ -3,3 +3,4 @@ pub mod syncmon;
 pub mod restart;
 pub mod sched;
 pub mod fault;
+pub mod crash;
